@@ -236,6 +236,22 @@ def _unstable(x, r):
     return False
 
 
+def _unordered_unstable(vs, inside=False):
+    if isinstance(vs, dict):
+        t = vs.get("t")
+        if inside and ((t == "float" and vs.get("v") == "nan") or (t == "decimal" and "nan" in str(vs.get("v")).lower()) or t in ("obj", "evil")):
+            return True
+        v = vs.get("v")
+        ins = inside or t in ("set", "frozenset")
+        if isinstance(v, list):
+            return any(_unordered_unstable(e, ins) for e in v)
+        if isinstance(v, dict):
+            return _unordered_unstable(v, ins)
+    elif isinstance(vs, list):
+        return any(_unordered_unstable(e, inside) for e in vs)
+    return False
+
+
 def judge_pair(x_spec, tname, entry):
     """-> (fails, info)"""
     res = {}
@@ -285,6 +301,9 @@ def run_case(case):
     if tname not in TARGETS or entry not in ("transform", "schema"):
         raise HarnessError("bad target/entry")
     codec.decode(x_spec)
+    if _unordered_unstable(x_spec):
+        # a set holding NaN or plain objects iterates in an order that differs between two decodes of the same spec
+        return [], {"accepted": {k: False for k in ("none", "ne", "ndl", "both")}, "unstable_source": True}
     try:
         return judge_pair(x_spec, tname, entry)
     finally:
